@@ -51,4 +51,3 @@ def genIterLevel (self : Params → G Unit) (params : Params) (composites_is_non
 -/
 
 end I2N.Extracted.GenIter
-
